@@ -1,16 +1,16 @@
-SPECIFICATION SysSpec
+SPECIFICATION SysFairSpec
 CONSTANTS
-  Conns <- AllConns
-  InitAuthed <- AllConns
-  Svcs = {1}
-  Objs <- OneObj
-  Methods = {100}
+  Conns <- OneConn
+  InitAuthed <- OneConn
+  Svcs = {1, 2}
+  Objs <- ObjsT
+  Methods = {100, 101}
   GenericActs = {8}
   FailTags = {}
   QCap = 1
   MCap = 1
   SrvAccept <- CodeFilter
-  StubRuns <- Types
+  StubRuns <- ReqTypes
   AuthRuns <- CallOnly
   AuthMode = "yes"
   Script <- NoScript
@@ -18,13 +18,14 @@ CONSTANTS
   MaxSends = 0
   Hangups = FALSE
   Dev_CapMapUnsynchronised = FALSE
-  Calls <- KA
-  ClientOf <- clientA
-  EpOf <- epA
-  SvcOf <- svcA
-  ObjOf <- objA
-  ActOf <- actA
-  Raws <- rawA
+  Calls <- KT4
+  ClientOf <- clientT
+  EpOf <- epT
+  SvcOf <- svcT
+  ObjOf <- objT
+  ActOf <- actT
+  Raws <- rawT
   Deviations <- NoDev
 INVARIANTS TypeOK AtMostOneOutcome OwnResult ExecOnceIfOk ExecAtMostOnce PostAtMostOnce PostNoResponse FramesOwed OnlyCallAndPostExecute ErrorIsOwn
+PROPERTIES EveryCallAnswered
 CHECK_DEADLOCK FALSE
